@@ -21,7 +21,8 @@ EXPLANATION = (
     'only on reversible-move information (half-move clock zero, or more than 100 reversible plies); Search::init takes the first-new '
     'index from the history size; (4) every Game::GameState enumerator has an arm in getGameStateString and getPGNResultString.'
     ' (5) the en-passant mask tables are correct for all 8 files and makeMove records an en-passant square only under the mask test (a spurious en-passant square makes rule-equal positions hash differently).'
-    ' Added later; (7) the index set, key comparison and claim rule of the repetition scan canClaimDrawRep (finite evaluation of its own init / bound / step expressions for list lengths 0..16 and clocks 0..20); (8) every replayed move on a game position (UCI move list, console move and redo) is followed by fixupEPSquare before its key is read again (found and fixed defects D13, D14).')
+    ' Added later; (7) the index set, key comparison and claim rule of the repetition scan canClaimDrawRep (finite evaluation of its own init / bound / step expressions for list lengths 0..16 and clocks 0..20); (8) every replayed move on a game position (UCI move list, console move and redo) is followed by fixupEPSquare before its key is read again (found and fixed defects D13, D14).'
+    ' Added later; (9) drawRuleEquals compares side to move, castling rights, en-passant square and the complete placement.')
 UNDECIDED = ('equality of hash keys for rule-equal positions beyond the structural clauses (value-level); the index arithmetic of canClaimDrawRep (start -4, step 2, clock bound) - value-level off-by-one territory; console draw '
              'claim semantics. Noticed, outside the property as stated and therefore not reported: WorkerThread::doSearch pushes the hash '
              'of the position AFTER the root move, so helper threads miss in-tree repetitions of the root position (never compared at the root level).')
@@ -69,6 +70,7 @@ def run(fb, rep, tier):
     c6_parallel_lists(fb, rep)
     c7_repetition_scan(fb, rep)
     c8_history_normal_form(fb, rep)
+    c9_draw_rule_equality(fb, rep)
 
 
 def c6_parallel_lists(fb, rep):
@@ -593,3 +595,77 @@ def c8_history_normal_form(fb, rep):
             rep.ob(clause, 'K2 must-pass-through', '%s: replayed move #%d on the game position is followed by fixupEPSquare before its key is read again or the function returns'
                    % (nm, k_site), w is None, R.site(f, e), '' if w is None else 'unnormalised path: ' + ' -> '.join('B%s@%s' % x for x in w[-4:]), f.sname)
     rep.floor(clause, 'replayed moves on a game position', n, 3)
+
+
+# ----------------------------------------------------------------------------- .9
+
+def c9_draw_rule_equality(fb, rep):
+    """K13: the console game counts repetitions with Position::drawRuleEquals.  Two positions are the same for the
+    repetition rule iff the piece placement, the side to move, the castling rights and the en-passant square agree; the
+    predicate must compare all four, and the placement completely: every square, or the bitboard of every piece type
+    (both kings to both pawns).  A comparison that leaves one piece type out accepts a claim for a position that occurred
+    once."""
+    clause = 'C11.9'
+    f = fb.find1('Position::drawRuleEquals')
+    if rep.need(clause, f, 'Position::drawRuleEquals') is None:
+        return
+    other = (f.d.get('params') or [{}])[0].get('id')
+
+    def pair(t):
+        """field name if t compares this.F (possibly indexed) with other.F"""
+        t = _strip7(t)
+        if not isinstance(t, dict):
+            return None
+        if t.get('k') == 'bin' and t.get('op') in ('!=', '=='):
+            sides = [t.get('l'), t.get('r')]
+        elif t.get('k') == 'call' and t.get('op') in ('!=', '==') :
+            sides = ([t['recv']] if t.get('recv') is not None else []) + t.get('args', [])
+        else:
+            return None
+        if len(sides) != 2:
+            return None
+        flds = []
+        for s_ in sides:
+            fn = [n.get('f', '').split('::')[-1] for n in walk(s_) if n.get('k') == 'mem' and (n.get('f') or '').split('::')[0] in ('Position', 'PositionBase')]
+            base_other = any(n.get('k') == 'var' and n.get('id') == other for n in walk(s_))
+            flds.append((fn[0] if fn else None, base_other))
+        if flds[0][0] and flds[0][0] == flds[1][0] and flds[0][1] != flds[1][1]:
+            return flds[0][0]
+        return None
+    compared = {}
+    for bid, blk in f.blocks.items():
+        c = (blk.get('term') or {}).get('cond')
+        if c is not None and bid not in f.dead:
+            fld = pair(eff_cond(blk['term']))
+            if fld:
+                compared.setdefault(fld, []).append(bid)
+    for fld in ('whiteMove', 'castleMask', 'epSquare'):
+        rep.ob(clause, 'K13 completeness', 'drawRuleEquals compares %s of the two positions' % fld, fld in compared, f.where, 'fields compared: %s' % sorted(compared), f.sname)
+    # the placement
+    n_types = fb.const('Piece::nPieceTypes')
+    full = False
+    how = 'no comparison of the board found'
+    if 'squares' in compared:
+        # inside a range-for over all squares
+        rng = any(e.get('k') == 'decl' and any('AllSquares' in str(v.get('t', '')) + str(v.get('ct', '')) for v in e.get('vars', [])) for _, _, e in f.events())
+        full = rng
+        how = 'squares[i] compared for every square of AllSquares' if rng else 'squares[] compared, but not in a loop over AllSquares'
+    elif 'pieceTypeBB_' in compared and n_types:
+        for bid, blk in f.blocks.items():
+            t = blk.get('term') or {}
+            c = _strip7(t.get('cond'))
+            if t.get('c') == 'ForStmt' and isinstance(c, dict) and c.get('k') == 'bin' and c.get('op') in ('<', '<='):
+                v = _strip7(c.get('l'))
+                hi = (_strip7(c.get('r')) or {}).get('cv')
+                lo = None
+                for _, _, e in f.events():
+                    if e.get('k') == 'decl':
+                        for dv in e.get('vars', []):
+                            if isinstance(v, dict) and dv.get('id') == v.get('id'):
+                                lo = (_strip7(dv.get('init')) or {}).get('cv')
+                if lo is not None and hi is not None:
+                    covered = set(range(lo, hi + (1 if c['op'] == '<=' else 0)))
+                    need = set(range(1, n_types))
+                    full = need <= covered
+                    how = 'piece-type bitboards %d..%d compared; piece types are 1..%d' % (lo, max(covered) if covered else lo, n_types - 1)
+    rep.ob(clause, 'K13 completeness', 'drawRuleEquals compares the complete piece placement (every square, or the bitboard of every piece type)', full, f.where, how, f.sname)
